@@ -1,6 +1,7 @@
 #!/bin/sh
 # regenerate the Makefile from the files present and run make with the given targets
 cd "$(dirname "$0")"
+mkdir -p ../ocaml/gen gen
 { cat _CoqProject; find gen model proofs props extract -name '*.v' | sort; } > .CoqProject.all
 coq_makefile -f .CoqProject.all -o Makefile >/dev/null 2>&1
 exec make "$@"
